@@ -294,7 +294,6 @@ func runC15(c *Ctx) {
 	handshakeRule(c, "R-C15-GOROUTINES")
 }
 
-
 // closeDrainsRule: the final drain of Close really runs. Close releases everything through its call of
 // Clear(), and Clear is a no-op on a closed cache (its own guard): so on every path to that call the
 // closed flag has not been written yet (no Store/Swap/CompareAndSwap on isClosed before it), and the
